@@ -184,6 +184,29 @@ def check_scenarios(tier):
             continue
         if observe_palette(o) != {a: d[a] for a in T.AA}:
             acc.viol("palette-not-committed", "palette with extra keys: rendering shows %r" % (sorted(observe_palette(o).items())[:6],), case)
+    # the same mapping with its keys inserted in other orders (a dictionary's insertion order carries no meaning)
+    base = {a: T.HTML_COLOURS[(7 * i + 3) % 17] for i, a in enumerate(T.AA)}
+    orders = {"reversed": list(reversed(T.AA)), "chemistry-groups": list("KRHDESTNQCGPAVILMFYW"), "rotated": list(T.AA[9:]) + list(T.AA[:9]),
+              "interleaved": list(T.AA[::2]) + list(T.AA[1::2]), "one-key-reinserted": [a for a in T.AA if a != "D"] + ["D"],
+              "by-colour": sorted(T.AA, key=lambda a: (base[a], a))}
+    for oname, order in orders.items():
+        for src in ("distinct", "default"):
+            case = {"kind": "key-order", "order": oname, "palette": src}
+            want = base if src == "distinct" else dict(T.DEFAULT_PALETTE)
+            d = {a: want[a] for a in order}
+            acc.transitions += 1
+            acc.traces += 1
+            o = SP(CYCLE)
+            try:
+                o.set_HTMLColorResiduePalette(d)
+            except Exception as e:  # noqa
+                acc.viol("valid-palette-rejected", "a valid palette whose keys were inserted in %s order was rejected (%r)" % (oname, e), case)
+                continue
+            obs = observe_palette(o)
+            if obs != want:
+                bad = sorted(a for a in T.AA if not isinstance(obs, dict) or obs.get(a) != want[a])[:5]
+                acc.viol("palette-depends-on-key-order", "palette with keys inserted in %s order: residues %r are rendered in another residue's "
+                         "colour" % (oname, bad), case)
     # other API areas between the update and the rendering (plots, analyses, shuffles) must not touch the palette
     import matplotlib.pyplot as plt
     from ..apivec import api_vector
@@ -328,10 +351,10 @@ def render_shard(args):
 
 
 def replay(case):
-    if case.get("kind") in ("reused-dict", "first-object", "extra-keys", "context"):
+    if case.get("kind") in ("reused-dict", "first-object", "extra-keys", "context", "key-order"):
         a = check_scenarios("quick")
         return [v for v in a.violations if v["case"].get("palette") == case.get("palette") and v["case"]["kind"] == case["kind"]
-                and v["case"].get("index") == case.get("index")]
+                and v["case"].get("index") == case.get("index") and v["case"].get("order") == case.get("order")]
     full = case.get("tier") == "thorough"
     ops = {o[0]: o for o in ops_list(full)}
     out = []
@@ -392,7 +415,7 @@ def run(tier, seed, t0):
              "palette entry, exactly one space before residues 0,10,20,.., a <br> before residues 0,50,100,.., stripped markup == "
              "sequence. Scenarios: the caller edits its own dictionary in place after an accepted update (the palette must not follow, the "
              "re-submission must be rejected and change nothing); in a freshly imported package the very first object receives each "
-             "valid palette and an object created afterwards must still render with the default. a dictionary that colours all 20 residues validly and carries extra keys is accepted (extras ignored); after analyses, plots and a shuffle on the same object the palette is unchanged. dont-care: upper-case colour names; non-trivial = renders longer than one block of 10" % (
+             "valid palette and an object created afterwards must still render with the default. a dictionary that colours all 20 residues validly and carries extra keys is accepted (extras ignored); two palettes resubmitted with their keys inserted in six other orders render identically; after analyses, plots and a shuffle on the same object the palette is unchanged. dont-care: upper-case colour names; non-trivial = renders longer than one block of 10" % (
                  len(ops), "all" if full else "3", ", None, 5" if full else "", "1..120" if full else "{1,9,10,11,20,49,50,51,60,99,100,101,120}"),
         bounds={"palette_ops": len(ops), "render_inputs_per_state": len(seqs), "depth": "fixpoint"},
         assumptions=["the palette is observed through rendering only (no attribute reads)"])
